@@ -161,3 +161,7 @@ func verifMaxSizeOverflow() {
 // message that sits in the channel's disk queue is delivered when the consumer is ready - also
 // after the consumer went through a not-ready phase - and a timed-out message is delivered again.
 func VerifC01_PumpHistoryDelivers() { verifPumpHistory() }
+
+// (shared with C04) messages of a channel created after another was deleted are still redelivered:
+// the queue scanner picks the new channel up at its next refresh.
+func VerifC01_QueueScanFollowsChannelChurn() { VerifC04_QueueScanFollowsChannelChurn() }
